@@ -7,6 +7,11 @@ def text_edit(old, new):
         return src.replace(old, new, 1) if old in src else None
     return edit
 MUTANTS = [
+    Mutant('des_branch_without_map', 'src/pharmpy/model/external/nonmem/update.py', text_edit("        newmap = new_compartmental_map(new)\n        model = model.replace(internals=model.internals.replace(compartment_map=newmap))\n", ""), 'B5', '$DES branch keeps the stale map'),
+    Mutant('model_record_early_return', 'src/pharmpy/model/external/nonmem/update.py', text_edit("    replace_dict: dict[str, Any] = {'compartment_map': newmap}\n", "    replace_dict: dict[str, Any] = {'compartment_map': newmap}\n    if oldmap == newmap and not model.internals.control_stream.get_records('MODEL'):\n        return model\n"), 'B5', 'early return after computing the map'),
+    Mutant('group_regenerates_only_kept', 'src/pharmpy/model/external/nonmem/records/code_record.py', text_edit("new_statements = [s for s, op in zip(statements, operations) if op != -1]", "new_statements = [s for s, op in zip(statements, operations) if op == 0]"), 'B6', 'replacement statement dropped'),
+    Mutant('group_removes_inserted', 'src/pharmpy/model/external/nonmem/records/code_record.py', text_edit("yield -1, [s for s, op in zip(statements, operations) if op != 1], ni, nj", "yield -1, [s for s, op in zip(statements, operations) if op != 0], ni, nj"), 'B6', 'removal set wrong'),
+    Mutant('cmt_sequential', 'src/pharmpy/model/external/nonmem/update.py', text_edit('            dataset = dataset.replace({"CMT": remap})\n', '            for old_number, new_number in remap.items():\n                dataset.loc[dataset["CMT"] == old_number, "CMT"] = new_number\n'), 'B7', 'entry-by-entry CMT renumbering'),
     Mutant('writer_v2_for_v1', U, text_edit("add_parameters_ratio(model, 'Q', 'V1', central, peripheral)", "add_parameters_ratio(model, 'Q', 'V2', central, peripheral)"), 'B1', 'K12 defined as Q/V2'),
     Mutant('writer_swapped_edge', U, text_edit("add_parameters_ratio(model, 'Q3', 'V3', peripheral1, central)", "add_parameters_ratio(model, 'Q3', 'V3', central, peripheral1)"), 'B1', 'ratio attached to the opposite flow'),
     Mutant('renamer_dropped', U, text_edit("                d[Expr.symbol('V1')] = Expr.symbol('V2')\n                d[Expr.symbol('V2')] = Expr.symbol('V3')", "                d[Expr.symbol('V1')] = Expr.symbol('V2')"), 'B2', 'V2->V3 dropped'),
